@@ -162,6 +162,9 @@ class DictWriter:
                         if attr == "values" and prop.dtype and \
                                 prop.dtype.endswith("-tuple") and prop.values:
                             prop_dict["value"] = odml_tuple_export(prop.values)
+                        elif attr == "dtype":
+                            # odml.DType members have to be saved as plain text.
+                            prop_dict[i] = str(tag)
                         else:
                             # Always use the arguments key attribute name when saving
                             prop_dict[i] = tag
